@@ -234,3 +234,70 @@ func H_C09_repeated() {
 		vAssert("object-still-shared", ok3 && ok4 && p3 != nil && p3 == p4)
 	}
 }
+
+// H_C09_long_values_in_positions: a chunked byte slice (more than 4096 octets) and a chunked string (more than 2048
+// characters) as struct field, list element, map value and map key (string only), with a value behind them: each
+// position has its own decoding path, and each gives back the full content.
+func H_C09_long_values_in_positions() {
+	n := []int{4096, 4097, 8193}[vChoice("blen", 3)]
+	b := make([]byte, n)
+	for i := range b {
+		b[i] = byte(i*7 + 1)
+	}
+	b[n-1] = vUint8("b")
+	m := []int{2048, 2049, 4097}[vChoice("slen", 3)]
+	rs := make([]rune, m)
+	for i := range rs {
+		rs[i] = rune('a' + i%26)
+	}
+	rs[m-1] = vScalar("s")
+	s := string(rs)
+	v := &ZText{Z: 9}
+	where := vChoice("where", 4)
+	switch where {
+	case 0:
+		v.B = b
+		v.A = s
+	case 1:
+		v.L = []string{"x", s, "y"}
+	case 2:
+		v.M = map[string]string{"k": s}
+	case 3:
+		v.M = map[string]string{s: "v"}
+	}
+	typMap, nameMap := vExtract(v)
+	bs, err := ToBytes(v, nameMap)
+	vAssert("encode-noerr", err == nil)
+	out, err := ToObject(bs, typMap)
+	vAssert("decode-noerr", err == nil)
+	got, ok := out.(*ZText)
+	vAssert("type", ok && got != nil && got.Z == 9)
+	switch where {
+	case 0:
+		vAssert("field-binary", eqBytes(got.B, b))
+		vAssert("field-string", got.A == s)
+	case 1:
+		vAssert("list-element", len(got.L) == 3 && got.L[0] == "x" && got.L[1] == s && got.L[2] == "y")
+	case 2:
+		e, has := got.M["k"]
+		vAssert("map-value", len(got.M) == 1 && has && e == s)
+	case 3:
+		e, has := got.M[s]
+		vAssert("map-key", len(got.M) == 1 && has && e == "v")
+	}
+	// the binary as element of an untyped list and as a map value, a value behind it
+	if where == 0 {
+		l := []interface{}{b, int32(7), map[string]interface{}{"k": b}}
+		bs, err := ToBytes(l, nil)
+		vAssert("encode-list-noerr", err == nil)
+		out, err := ToObject(bs, nil)
+		g, ok := out.([]interface{})
+		vAssert("list", err == nil && ok && len(g) == 3)
+		g0, ok0 := g[0].([]byte)
+		g1, ok1 := g[1].(int32)
+		gm, okm := g[2].(map[interface{}]interface{})
+		vAssert("list-values", ok0 && ok1 && okm && eqBytes(g0, b) && g1 == 7)
+		gb, okb := gm["k"].([]byte)
+		vAssert("map-value-binary", okb && eqBytes(gb, b))
+	}
+}
